@@ -116,6 +116,20 @@ func intOfTerm(e *Exec, t *smt.Term, signed bool, w int) *smt.Term {
 		}
 		return smt.IntBig(new(big.Int).SetUint64(c))
 	}
+	if t.Sort.K == smt.KBV {
+		// small symbolic machine integers entering Int-mode arithmetic (e.g. a table value handed to
+		// SetInt64): the solver's built-in bv2nat, minus 2^w when a signed value is negative
+		core := t
+		for core.Op == smt.OZext {
+			core = core.Args[0]
+		}
+		n := smt.App("bv2nat", smt.Int, core)
+		if !signed || core != t || smt.UMax(t) < uint64(1)<<uint(w-1) {
+			return n
+		}
+		neg := smt.BvCmp(smt.OBvSlt, t, smt.BVC(t.Sort.W, 0))
+		return smt.Ite(neg, smt.IntBin(smt.OIntSub, n, smt.IntBig(new(big.Int).Lsh(big.NewInt(1), uint(t.Sort.W)))), n)
+	}
 	e.unsupported("symbolic bit-vector used where an Int-mode value is needed")
 	return nil
 }
